@@ -385,8 +385,12 @@ STEPS = {
     'cm': _via_cm, 'deco': _wrapped, 'prop': _via_prop, 'init': _via_init,
     'lam': _lam, 'dyn': _dyn,
 }
+from vmon import c12_twin_a, c12_twin_b      # noqa: E402  (they import this module)
+STEPS['ta'] = c12_twin_a._twin
+STEPS['tb'] = c12_twin_b._twin
 # names of the frames each step leaves in the traceback
 STEP_NAMES = {
+    'ta': ['_twin'], 'tb': ['_twin'],
     'f': ['_f'], 'g': ['_g'], 'm': ['meth'], 'gen': ['_via_gen', '_gen'],
     'clo': ['_clo', 'inner'], 'sort': ['_via_sort', '<lambda>'],
     'fin': ['_fin'], 'rer': ['_reraise'], 'hide': ['_hide'],
